@@ -39,7 +39,7 @@ type Viol struct {
 	Detail string `json:"detail"`
 	Case   any    `json:"case"`
 	Count  int64  `json:"count"`
-	Size   int    `json:"-"`
+	Size   int    `json:"size"`
 }
 
 // Ctx carries the per-run configuration and accumulates coverage.
@@ -335,7 +335,15 @@ func main() {
 	replay := flag.String("replay", "", "replay file")
 	shard := flag.String("shard", "", "i/n (internal)")
 	budget := flag.Duration("budget", 0, "internal deadline override")
+	racebody := flag.Bool("racebody", false, "run the free-running bodies (inside the -race binary)")
 	flag.Parse()
+	if *racebody {
+		if t := os.Getenv("VERIF_TIER"); (t == "quick" || t == "thorough") && !flagSet("tier") {
+			*tier = t
+		}
+		raceBodyMain(*prop, *tier)
+		return
+	}
 	ch := registry[*prop]
 	if ch == nil {
 		fmt.Fprintf(os.Stderr, "unknown property %q\n", *prop)
